@@ -17,6 +17,7 @@ A [stmt] list is built as Seq(...); an empty list as Seq().
 Variables of a MaybeValue m are called m+".v" and m+".h"; a DynamicScratchVar d is itself a variable d
 (set_index stores it, dstore/dload read it).
 """
+import copy
 import json
 
 # ---------------------------------------------------------------------------------------------
@@ -597,7 +598,7 @@ class Gen:
 
     def stmt(self, ctx, depth, in_loop):
         rng = self.rng
-        opts = [("store", 30), ("pop", 22), ("assert", 3)]
+        opts = [("store", 30), ("pop", 22), ("assert", 3), ("storeuse", 7)]
         if depth > 0:
             opts += [("if", 10), ("ifelse", 8), ("cond", 6), ("while", 8), ("for", 6), ("seq", 4)]
         if in_loop:
@@ -632,6 +633,10 @@ class Gen:
                     [self.simple_stmt(ctx, 0) for _ in range(rng.randrange(0, 2))], self.stmts(ctx, d, True, rng.randrange(1, 4))]
         if k == "seq":
             return ["seq", self.stmts(ctx, d, in_loop, rng.randrange(0, 3))]
+        if k == "storeuse":
+            # adjacent store/load pair of one variable in one block (what the scratch-slot optimiser cancels)
+            v = rng.choice(ctx["vars"])
+            return ["seq", [["store", v, ["int", rng.randrange(10)]], ["pop", ["load", v, self.new_site()]]]]
         if k == "break":
             return ["break"]
         if k == "continue":
@@ -654,6 +659,29 @@ class Gen:
         if k == "dstore":
             return ["dstore", rng.choice(ctx["dyn"]), self.expr(ctx, 1), self.new_site()]
         return ["refstore", self.expr(ctx, 1)]
+
+
+def _has_load(x):
+    if isinstance(x, list):
+        if len(x) == 3 and x[0] == "load" and x[1] == "x":
+            return True
+        return any(_has_load(y) for y in x)
+    return False
+
+
+def many_conditional_stores(k, load_var=0, first_unconditional=False):
+    """k independent one-armed If(..).Then(v_i.store(..)) followed by a read of v_<load_var>: the validator's state
+    space is 2^k slot sets; with load_var = 0 the only unstored path (false edge of the FIRST If) is the last one a
+    true-edge-first depth-first walk reaches, after ~2^(k-1) * 2 (block, set) states."""
+    vs = ["y"] + ["v%d" % i for i in range(k)]
+    main = [["store", "y", ["int", 0]]]
+    for i in range(k):
+        if i == 0 and first_unconditional:
+            main.append(["store", "v0", ["int", 1]])
+        else:
+            main.append(["if", ["fee"], [["store", "v%d" % i, ["int", 1]]], None])
+    main += [["pop", ["load", "v%d" % load_var, 1]], ["ret", ["int", 1]]]
+    return {"vars": {v: {"kind": "auto"} for v in vs}, "dyn": [], "mvs": [], "subs": [], "main": main}
 
 
 def exhaustive_small(level):
@@ -703,6 +731,20 @@ def exhaustive_small(level):
         # NormalizeBlocks' start-block defect (C20) and never reaches validateSlots
         main = [["store", "y", ["int", 0]]] + shape + [Lx(), ["ret", ["int", 1]]]
         progs.append({"vars": {"x": {"kind": "auto"}, "y": {"kind": "auto"}}, "dyn": [], "mvs": [], "subs": [], "main": fix_sites(main)})
+        # the same shape followed by an ADJACENT `x.store(e); use(x.load())`: with the scratch-slot optimiser on the pair
+        # is a cancellation candidate, and cancelling it deletes every load/store of x in the routine — the optimiser
+        # must see the earlier reads of x (in an If arm, a loop body, a sibling block) as dependencies
+        if any(_has_load(s_) for s_ in shape):
+            main2 = [["store", "y", ["int", 0]]] + copy.deepcopy(shape) + [["store", "x", ["int", 5]], ["ret", ["load", "x", 0]]]
+            progs.append({"vars": {"x": {"kind": "auto"}, "y": {"kind": "auto"}}, "dyn": [], "mvs": [], "subs": [], "main": fix_sites(renumber(main2))})
+
+    def renumber(x):
+        if isinstance(x, list):
+            if len(x) == 3 and x[0] == "load":
+                x[2] = 0
+            for y in x:
+                renumber(y)
+        return x
 
     for b in bodies(False, 2):
         emit(inst(b))
